@@ -17,10 +17,25 @@ def check(run):
     run.rule = ("random indexes (doc boosts, several segments, deletions) x random scored query trees with boosts "
                 "in {1/2,1,2,4}; Hit scores under limit=None / terms=True judged by TLC against QuerySem!Denote")
     cases, meta = c01.build_cases(run, rng, 12 if quick else 120, 30 if quick else 40, ndocs=(4, 9), depth=3,
-                                  paths=("unlimited", "terms"), scored_only=True, cmp="full", kinds=("ranked", "error"), ops=NOFUZZY)
-    for cs in cases:           # limited searches are C05's subject
+                                  paths=("unlimited", "limited", "terms"), scored_only=True, cmp="full",
+                                  kinds=("ranked", "error"), ops=NOFUZZY, limits=(1, 2, 3))
+    for cs in cases:
         for qo in cs["qs"]:
-            qo["obs"] = [o for o in qo["obs"] if o.get("k", 0) == 0]
+            # which documents a limited search returns is C05's subject; that the ones it returns carry the
+            # documented score (independent of the collector and of the other results) is this property's
+            qo["obs"] = [o if o.get("k", 0) == 0 else {"kind": "scoresub", "path": o["path"] + " scores",
+                                                        "hits": o["hits"]} for o in qo["obs"]]
+    # unions/optional clauses over more documents with small limits: the matcher tree is rewritten during
+    # the search; the scores of what is returned must not notice
+    c2, m2 = c01.build_cases(run, rng, 8 if quick else 80, 30 if quick else 40, ndocs=(10, 20), depth=3,
+                             paths=("limited", "terms"), scored_only=True, cmp="full", kinds=("ranked", "error"),
+                             ops=["term", "every", "or", "andmaybe", "and"], limits=(1, 2, 3, 4))
+    for cs in c2:
+        for qo in cs["qs"]:
+            qo["obs"] = [{"kind": "scoresub", "path": o["path"] + " scores", "hits": o["hits"]}
+                         for o in qo["obs"] if o["kind"] == "ranked"]
+    cases += c2
+    meta += m2
     rejects = qobs.judge(run, cases)
     c01.report(run, "C09", cases, meta, rejects, "c09")
     layouts(run, rng, 4 if quick else 40, 8 if quick else 12)
